@@ -408,9 +408,9 @@ func TestC14(t *testing.T) {
 		if len(ev.harnessErrors) > 0 {
 			return
 		}
-		kC14.Run(t, ev, perShard(pick(1200, 60000)))
-		kC14Block.Run(t, ev, perShard(pick(1500, 100000)))
-		kC14Chain.Run(t, ev, perShard(pick(1500, 100000)))
+		kC14.Run(t, ev, perShard(pick(1200, 150000)))
+		kC14Block.Run(t, ev, perShard(pick(1500, 500000)))
+		kC14Chain.Run(t, ev, perShard(pick(1500, 500000)))
 		ev.requireClasses("C14:P%8=0", "C14:P%8=3", "C14:P%8=7", "C14:N*M-high-half-nonzero", "C14:basic-filter",
 			"C14:builder-latched-error", "C14:builder-unset-parameter", "C14:builder-ok")
 	})
